@@ -236,6 +236,16 @@ func main() {
 			obls = append(obls, o)
 		}
 	}
+	// lemmas of the byte-string theory, proved from the witness definition of the order (for the properties that use it)
+	if *funcFilter == "" || strings.Contains("theory.bytestrings", *funcFilter) {
+		for _, o := range theoryObligations([]string{"C03", "C05", "C11", "C14"}) {
+			if wantProp(o.Props) {
+				id++
+				o.id = id
+				obls = append(obls, o)
+			}
+		}
+	}
 	if *listOnly {
 		for _, o := range obls {
 			fmt.Printf("%s\t%s\n", o.Name, o.Pos)
